@@ -254,6 +254,47 @@ def rule_p4(ctx, F):
             ctx.bad("P4", "ts_parser__lex:state-compare-reads-clobbered-buffer", "ts_parser__lex: %s" % v2.msg)
 
 
+def rule_p5(ctx, F):
+    """P5: chunking and encoding.  A chunk is always requested for the lexer's current position; the
+    decoder is the one of the declared encoding; the ASCII short-cut applies to UTF-8 only; the chunk is
+    dropped whenever the position leaves it."""
+    fn = ctx.need_fn(F, "ts_lexer__get_chunk", "P5")
+    if fn:
+        rd = find(fn, "self->chunk = (*self->input.read)(self->input.payload, self->current_position.bytes, self->current_position.extent, &self->chunk_size)") or \
+            find(fn, "self->chunk = self->input.read(self->input.payload, self->current_position.bytes, self->current_position.extent, &self->chunk_size)")
+        st = find(fn, "self->chunk_start = self->current_position.bytes")
+        if rd and st:
+            ctx.ok("P5", "get_chunk:reads-at-current-position", "the read callback is asked for the current byte and point, and chunk_start records that byte")
+        else:
+            ctx.bad("P5", "get_chunk:reads-at-current-position", "ts_lexer__get_chunk no longer reads at (current_position.bytes, current_position.extent) and records chunk_start = current_position.bytes (%d/%d)" % (len(rd), len(st)))
+    fn = ctx.need_fn(F, "ts_lexer__get_lookahead", "P5")
+    if fn:
+        d = [x for i in fn.ids_named("decode") for x in fn.defs(i) if x is not None and x.get("k") != "uninit"]
+        pat = ("self->input.encoding == TSInputEncodingUTF8 ? ts_decode_utf8 : self->input.encoding == TSInputEncodingUTF16LE ? ts_decode_utf16_le : "
+               "self->input.encoding == TSInputEncodingUTF16BE ? ts_decode_utf16_be : self->input.decode")
+        if d and M(fn).match(pat, d[0]):
+            ctx.ok("P5", "get_lookahead:decoder-matches-encoding", "UTF8 → ts_decode_utf8, UTF16LE → ts_decode_utf16_le, UTF16BE → ts_decode_utf16_be, otherwise the custom decoder")
+        else:
+            ctx.bad("P5", "get_lookahead:decoder-matches-encoding", "the decoder chosen in ts_lexer__get_lookahead no longer follows the declared encoding (`%s`)" % (show(d[0])[:160] if d else "?"))
+        fast = [pt for pt, n in find(fn, "self->data.lookahead = chunk[0]")]
+        ctx.gate("P5", fn, fast, [("a byte is taken as a character without decoding only in UTF-8", "self->input.encoding == TSInputEncodingUTF8", True),
+                                  ("…and only if it is ASCII", "chunk[0] < 128", True)], accept_desc="taking a byte as the look-ahead character")
+    for name in ("ts_lexer_goto", "ts_lexer__do_advance"):
+        fn = ctx.need_fn(F, name, "P5")
+        if fn:
+            clr = [pt for pt, c in fn.calls() if callee_name(c) in ("ts_lexer__clear_chunk", "ts_lexer__get_chunk")]
+            ctx.floor("chunk refreshes in " + name, len(clr), 1)
+            eof = ("found_included_range", False) if name == "ts_lexer_goto" else ("current_range", False)
+            ctx.gate("P5", fn, clr, [("the chunk is refreshed exactly when the position lies before it or at/after its end (or the input is exhausted)",
+                     [("self->current_position.bytes < self->chunk_start", True), ("self->current_position.bytes >= self->chunk_start + self->chunk_size", True), eof])],
+                     accept_desc="refreshing the chunk")
+            if name == "ts_lexer__do_advance":
+                la = [pt for pt, c in fn.calls() if callee_name(c) == "ts_lexer__get_lookahead"]
+                ctx.gate("P5", fn, la, [("a character is decoded only from a chunk that starts at or before the position", [("ts_lexer__get_chunk(self)", "stmt"), ("self->current_position.bytes < self->chunk_start", False)]),
+                                        ("…and extends beyond it", [("ts_lexer__get_chunk(self)", "stmt"), ("self->current_position.bytes >= self->chunk_start + self->chunk_size", False)])],
+                         accept_desc="decoding the next character")
+
+
 def run(ctx):
     for cfg in configs(ctx):
         ctx.config = cfg
@@ -263,6 +304,7 @@ def run(ctx):
         rule_p1(ctx, F)
         rule_p2(ctx, F)
         rule_p4(ctx, F)
+        rule_p5(ctx, F)
     return ctx.finish(
         "Field-coverage and ordering rules over parser.c/lexer.c: each of TSParser's 24 fields is classified and every RESET field is re-initialised on all paths "
         "of ts_parser_reset; completion and language change pass ts_parser_reset; a resumed parse stores to no parser state before the loop; a new input discards "
